@@ -84,6 +84,12 @@ def factors(draw, max_factors=3, max_pts=4):
             s = math.fsum(w)
             w = [wi / s for wi in w]
         wts.append(w); pos.append(x)
+    if draw(st.integers(0, 7)) == 0:
+        # un-normalised measures of very small total mass (every weight scaled by a power of two near 1e-6 ... 1e-12)
+        for w in wts:
+            sc = draw(st.sampled_from([2.0 ** -20, 2.0 ** -30, 2.0 ** -40]))
+            for i in range(len(w)):
+                w[i] = w[i] * sc
     return wts, pos
 
 
